@@ -19,7 +19,8 @@ Inductive c16case :=
            (trace : list lbl)                    (* the same scenario as LTS labels, in the order the harness forced *)
            (reqs : list (list c16req))           (* per connection: the requests sent *)
            (wires : list (list bytes))           (* per connection: the raw bytes read for each of them *)
-           (maxrun : nat).                       (* the largest number of wrapped handlers inside h(ctx) at one time, as counted by them *)
+           (maxrun : nat)                        (* the largest number of wrapped handlers inside h(ctx) at one time, as counted by them *)
+           (badcloses : nat).                    (* body streams of timeout responses (TimeoutErrorWithResponse) NOT closed exactly once *)                       (* the largest number of wrapped handlers inside h(ctx) at one time, as counted by them *)
 
 Definition timeout_val (tmsg : bytes) (tcode : Z) : val := [HHdr (ROSetStatusCode tcode); HSetBody tmsg].
 Definition too_many_val (tmsg : bytes) : val := [HError tmsg StatusTooManyRequests].
@@ -58,7 +59,7 @@ Fixpoint conns_ok (cfg : srvcfg) (date : bytes) (s : state val) (c : nat) (rs : 
 
 Definition corr_ok (c : c16case) : bool :=
   match c with
-  | C16Trace cfg _ semcap date tmsg tcode _ trace reqs wires _ =>
+  | C16Trace cfg _ semcap date tmsg tcode _ trace reqs wires _ _ =>
       match run val (timeout_val tmsg tcode) (too_many_val tmsg) [] semcap (init val []) trace with
       | None => false                                 (* the harness forced an order the model cannot take *)
       | Some s => Nat.eqb (s_nconn val s) (length reqs) && conns_ok cfg date s 0 reqs wires
@@ -101,11 +102,13 @@ Fixpoint judge (tmsg : bytes) (tcode : Z) (xs : list (nat * expectation)) (reqs 
 
 Definition prop_ok (c : c16case) : bool :=
   match c with
-  | C16Trace cfg cap _ date tmsg tcode events _ reqs wires maxrun =>
+  | C16Trace cfg cap _ date tmsg tcode events _ reqs wires maxrun badcloses =>
       let xs := expectations cap events in
       judge tmsg tcode xs reqs wires (fun _ => O) &&
       (* every response was expected: as many responses as requests in the scenario *)
       Nat.eqb (length xs) (fold_right (fun w n => (length w + n)%nat) O wires) &&
       (* at most `cap` wrapped handlers ran at any time *)
-      (maxrun <=? cap)%nat
+      (maxrun <=? cap)%nat &&
+      (* a streamed timeout response is consumed: its stream is closed exactly once *)
+      Nat.eqb badcloses 0
   end.
